@@ -274,6 +274,14 @@ impl Segments {
         self.snd_una + self.segments.len() as u16
     }
 
+    // True while the newest segment is an MTU probe that may still fail, i.e. be cut again into
+    // several smaller segments (which then need more sequence numbers).
+    pub fn has_pending_mtu_probe(&self) -> bool {
+        self.segments
+            .back()
+            .is_some_and(|s| s.is_mtu_probe && !s.is_delivered)
+    }
+
     pub fn first_seq_nr(&self) -> Option<SeqNr> {
         if self.segments.is_empty() {
             None
